@@ -177,6 +177,7 @@ def execute(task):
         "interrupts": sched.interrupts_delivered,
         "strategy": strat.describe(),
         "preemptions": sched.preemptions,
+        "engine_release_steps": list(sched.engine_release_steps),
     }
     if out["dead"]:
         rec["_poisoned"] = True
